@@ -677,6 +677,10 @@ def _insert_case(args):
     for r in me._cssRules:
         if r is not new and r._parentStyleSheet is not me:
             problems.append('another rule lost its parent')
+    if in_order and inlist:
+        pos = [i for i, r in enumerate(me._cssRules) if r is new][0]
+        if any(r.kind == newkind for r in list(me._cssRules)[pos + 1:]):
+            problems.append(f'an ordered add puts the rule in front of a rule of its own kind: {after} (rules of one kind keep the order in which they were added)')
     return (start, newkind, index, in_order, problems)
 
 
@@ -684,7 +688,7 @@ _R09G = None
 
 
 def r09g(chk, rid='R09.g'):
-    chk.rule(rid, 'inductive step of the ordering clause, by evaluation: CSSStyleSheet.insertRule is evaluated on its syntax tree (helpers resolved in the class; namespace clean-up, variable update and logging are model stubs in log mode) from every rule list of up to two rules (thorough tier: three) over eight rule kinds that satisfies the order, for every kind of new rule, every index and ordered add: afterwards the list still satisfies the order, the new rule is in the list iff it names the sheet as parent, nothing else was removed or re-parented, an accepted positional insert lands at the requested index, and an error is reported only when nothing was inserted')
+    chk.rule(rid, 'inductive step of the ordering clause, by evaluation: CSSStyleSheet.insertRule is evaluated on its syntax tree (helpers resolved in the class; namespace clean-up, variable update and logging are model stubs in log mode) from every rule list of up to two rules (thorough tier: three) over eight rule kinds that satisfies the order, for every kind of new rule, every index and ordered add: afterwards the list still satisfies the order, the new rule is in the list iff it names the sheet as parent, nothing else was removed or re-parented, an accepted positional insert lands at the requested index, an ordered add lands behind the rules of its own kind, and an error is reported only when nothing was inserted')
     chk.assume('R09.g: insertRule looks at rules only through their kind, prefix/URI and position; lists of up to two (thorough: three) rules over eight kinds exercise every scan (before the index, after the index, last of its kind, first stop); namespace clean-up, variable update and logging are stubs; log mode')
     import itertools
     import multiprocessing as mp
